@@ -17,7 +17,7 @@ from ..common import Ctx, pmap, jhash
 from .. import matlib
 
 FRAMES = {}
-PATHS = ["sugar", "formula", "spec", "materializer", "attached", "sugar-attached", "materializer-reused"]
+PATHS = ["sugar", "formula", "spec", "materializer", "attached", "sugar-attached", "materializer-reused", "spec-reused"]
 OUTPUTS = ["pandas", "numpy", "sparse"]
 MATS = ["pandas", "narwhals-pandas", "narwhals-arrow"]
 ALL = [(p, o, m) for p in PATHS for o in OUTPUTS for m in MATS]
@@ -38,6 +38,14 @@ def build(formula, data, path, output, mat, case):
         return Formula(formula).get_model_matrix(data, context={}, materializer=matname, **kw)
     if path == "spec":
         return ModelSpec.from_spec(Formula(formula), materializer=matname, **kw).get_model_matrix(data, context={})
+    if path == "spec-reused":      # one not-yet-materialized ModelSpec object that has already been used on other data (it records nothing)
+        spec = ModelSpec.from_spec(Formula(formula), materializer=matname, **kw)
+        k = max(2, len(data) // 2)
+        try:
+            spec.get_model_matrix(data.iloc[:k] if hasattr(data, "iloc") else data.slice(0, k), context={})
+        except Exception:  # noqa  (the first call is not what this combination judges)
+            pass
+        return spec.get_model_matrix(data, context={})
     if path in ("attached", "sugar-attached"):      # the spec attached to an earlier result, applied to the same data
         spec = model_matrix(formula, data, context={}, materializer=matname, **kw).model_spec
         return spec.get_model_matrix(data, context={}) if path == "attached" else model_matrix(spec, data, context={})
@@ -80,7 +88,36 @@ def replay_case(case):
             bad.append({**base, "why": "column-names", "observed": names, "expected": case["names"]})
         elif cells != case["cells"]:
             bad.append({**base, "why": "cells", "observed": cells, "expected": case["cells"]})
-    return bad, len(set(combos))
+    n = len(set(combos))
+    # "the same numbers" whatever dtype stores them: the numeric columns scaled up to the top of int8 and held as int8 (products and
+    # literal scalings leave that range) must give, on every entry point x output x materializer of the rotation, the matrix that the
+    # same numbers held as float64 give
+    numcols = [c for c in df.columns if df[c].dtype.kind == "f"]
+    if numcols and not bad and h % 3 == 0 and all(df[c].notna().all() and (df[c] == df[c].round()).all() for c in numcols):
+        import numpy
+
+        top = max(1.0, max(float(df[c].abs().max()) for c in numcols))
+        if top <= 127:
+            big, narrow = df.copy(), df.copy()
+            for c in numcols:
+                big[c] = df[c] * float(int(127 // top))
+                narrow[c] = big[c].astype("int8")
+            try:
+                ref = numpy.asarray(build(formula, big, "sugar", "numpy", "pandas", case), dtype=float)
+            except Exception:  # noqa
+                ref = None
+            for path, output, mat in dict.fromkeys(combos) if ref is not None else ():
+                n += 1
+                base = {"formula": formula, "fid": case["fid"], "path": path, "output": output, "materializer": mat, "full_rank": case["full_rank"],
+                        "na": case["na"], "cluster": case["cluster"], "columns": "int8"}
+                try:
+                    mm = build(formula, matlib.arrow_table(narrow, nan_not_null=False) if mat == "narwhals-arrow" else narrow, path, output, mat, case)
+                    arr = numpy.asarray(mm.toarray() if hasattr(mm, "toarray") else mm, dtype=float)
+                    if arr.shape != ref.shape or not numpy.array_equal(arr, ref):
+                        bad.append({**base, "why": "cells differ from those of the same numbers held as float64", "observed": arr.tolist(), "expected": ref.tolist()})
+                except Exception as e:  # noqa
+                    bad.append({**base, "why": "exception with int8 columns", "observed": type(e).__name__ + ": " + str(e)[:120]})
+    return bad, n
 
 
 # ------------------------------------------------------------------ contrast-coded factors (coding matrices from Contrasts.tla)
@@ -191,7 +228,7 @@ def replay_agreement(job):
     tb = matlib.arrow_table(df, nan_not_null=bool(seed % 2))
     ref, bad, cnt = None, [], 0
     for path, output, mat in ALL:
-        if path in ("attached", "sugar-attached", "materializer-reused") and output != "numpy":
+        if path in ("attached", "sugar-attached", "materializer-reused", "spec-reused") and output != "numpy":
             continue
         cnt += 1
         base = {"formula": formula, "fid": f"random-{seed}", "path": path, "output": output, "materializer": mat, "full_rank": True, "na": "drop", "cluster": False}
